@@ -81,7 +81,15 @@ Definition parse_op (genesis : bytes) (s : bytes) : option op :=
         | Some i, Some t, Some pv, Some h => Some (OTapScript i pv h t genesis) | _, _, _, _ => None end
       else None
   | [k; idx; ty; a; b; an; lh; pos] =>
-      if bytes_eqb k (L "T") then
+      if bytes_eqb k (L "Q") then
+        (* script-spend through ScriptPath::new(script, code_separator_pos, LeafVersion::from_u8(ver)): fields script, ver, pos. The entry point
+           taproot_script_spend_signature_hash hashes with the position 0xFFFFFFFF whatever the ScriptPath carries (src/sighash.rs), and the leaf
+           hash commits to the given leaf version. *)
+        match nat_of_dec idx, parse_schnorr ty, parse_pv a b, hexarg an, N_of_dec lh, N_of_dec pos with
+        | Some i, Some t, Some pv, Some sc, Some ver, Some _ =>
+            Some (OTapScript i pv (tagged TAG_TAPLEAF (n2b ver :: vi_enc (N.of_nat (length sc)) ++ sc)) t genesis)
+        | _, _, _, _, _, _ => None end
+      else if bytes_eqb k (L "T") then
         match nat_of_dec idx, parse_schnorr ty, parse_pv a b, parse_annex an with
         | Some i, Some t, Some pv, Some ann =>
             if bytes_eqb lh (L "-") then Some (OTaproot i pv ann None t genesis)
